@@ -211,8 +211,8 @@ struct Scenario {
     selfjoined: Vec<(usize, usize)>,
     /// c10: `Arbiter::new` targets that get a `blocking` task (ascending)
     blocked: Vec<usize>,
-    /// c10: `runner plain` (Some(false)) / `runner block` (Some(true)): the runner is not run but dropped
-    runner_mode: Option<bool>,
+    /// c10: `runner plain` (0) / `runner block` (1) / `runner stopped` (2): the runner is not run but dropped
+    runner_mode: Option<u8>,
     /// c10: a `dropsys` line exists
     dropsys: bool,
     stopped: Vec<bool>, // c10: a stop command exists for this arbiter
@@ -1299,7 +1299,7 @@ struct Sys10 {
 /// thread hosts `n` other Systems one after the other, each of which does a little work (a local task;
 /// every other one also an arbiter that comes and goes); their runners are kept alive until the
 /// thread ends, or dropped at once.
-fn start_system(narb: usize, host: Option<(usize, bool)>, custom: bool, slow: bool, runner_mode: Option<bool>) -> Result<Sys10, Out> {
+fn start_system(narb: usize, host: Option<(usize, bool)>, custom: bool, slow: bool, runner_mode: Option<u8>) -> Result<Sys10, Out> {
     let fail = |what: &str, t3: bool| Out {
         log: format!("setup={what}"),
         verdict: format!("setup={what}"),
@@ -1330,15 +1330,58 @@ fn start_system(narb: usize, host: Option<(usize, bool)>, custom: bool, slow: bo
         }
         let runner = new_system_runner(custom);
         let sys = System::current();
-        let arbs: Vec<Arbiter> = (0..narb).map(|i| new_arbiter(custom, slow && i + 1 == narb)).collect();
-        drop(lock);
-        let _ = setup_tx.send((sys, thread::current().id(), arbs));
-        let r = match runner_mode {
+        let me = thread::current().id();
+        let create = move || (0..narb).map(|i| new_arbiter(custom, slow && i + 1 == narb)).collect::<Vec<Arbiter>>();
+        if runner_mode != Some(2) {
+            let arbs = create();
+            drop(lock);
+            let _ = setup_tx.send((sys, me, arbs));
+            let r = finish_runner(runner, runner_mode, drop_rx, &dropped_tx);
+            let _ = res_tx.send(r);
+            drop(kept);
+            return;
+        }
+        // `runner stopped`: driven by `block_on`; `System::stop()` is called FIRST and handled by the controller
+        // (the system arbiter, stopped with it, refuses commands), and only then are the arbiters created and
+        // registered.  Nobody has stopped THEM: the stop broadcast was over before they existed.
+        runner.block_on(async move {
+            System::current().stop();
+            let t0 = Instant::now();
+            while sys.arbiter().spawn_fn(|| {}) && t0.elapsed() < WATCHDOG {
+                actix_rt::time::sleep(Duration::from_millis(1)).await;
+            }
+            let arbs = create();
+            drop(lock);
+            // their registrations, queued before `Arbiter::new` returned, are handled in the next turns
+            for _ in 0..3 {
+                actix_rt::time::sleep(Duration::from_millis(1)).await;
+            }
+            let _ = setup_tx.send((sys, me, arbs));
+            let _ = drop_rx.await;
+        });
+        drop(runner);
+        let _ = dropped_tx.send(());
+        let _ = res_tx.send(Ok(0));
+        drop(kept);
+    });
+    locked_rx.recv_timeout(LOCK_WAIT).map_err(|_| fail("blocked", false))?;
+    let (sys, sys_thread, arbs) = setup_rx.recv_timeout(4 * WATCHDOG).map_err(|_| fail("hang", true))?;
+    Ok(Sys10 { sys, sys_thread, arbs, res_rx, drop_tx: runner_mode.map(|_| drop_tx), dropped_rx })
+}
+
+/// what the system thread does with its runner once the arbiters exist
+fn finish_runner(
+    runner: actix_rt::SystemRunner,
+    runner_mode: Option<u8>,
+    drop_rx: tokio::sync::oneshot::Receiver<()>,
+    dropped_tx: &mpsc::Sender<()>,
+) -> Result<i32, String> {
+    match runner_mode {
             None => runner.run_with_code().map_err(|e| e.to_string()),
             // the runner is not run: idle, or driven by `block_on` (the controller is polled and registers the
             // arbiters) until the director says so; then dropped, with no `System::stop()` anywhere
-            Some(block) => {
-                if block {
+            Some(m) => {
+                if m == 1 {
                     runner.block_on(async move {
                         actix_rt::time::sleep(Duration::from_millis(1)).await;
                         let _ = drop_rx.await;
@@ -1350,13 +1393,7 @@ fn start_system(narb: usize, host: Option<(usize, bool)>, custom: bool, slow: bo
                 let _ = dropped_tx.send(());
                 Ok(0)
             }
-        };
-        let _ = res_tx.send(r);
-        drop(kept);
-    });
-    locked_rx.recv_timeout(LOCK_WAIT).map_err(|_| fail("blocked", false))?;
-    let (sys, sys_thread, arbs) = setup_rx.recv_timeout(4 * WATCHDOG).map_err(|_| fail("hang", true))?;
-    Ok(Sys10 { sys, sys_thread, arbs, res_rx, drop_tx: runner_mode.map(|_| drop_tx), dropped_rx })
+    }
 }
 
 fn short<T: std::fmt::Debug>(v: &[T]) -> String {
@@ -2128,6 +2165,86 @@ fn exec_sysids(threads: usize, rounds: usize) -> Result<String, String> {
     }
 }
 
+/// `syslive <rounds>`: per round, System A is created, System B is created on another thread (it gets an
+/// arbiter and stays alive), A is stopped and its `run()` returns, and then System C is created on a third
+/// thread.  B and C are alive at the same time: their ids differ, and a task on an arbiter of each sees its
+/// own system's id.  (A System that has finished does not hand its id — or anybody else's — back.)
+fn exec_syslive(rounds: usize) -> Result<String, String> {
+    // a System on its own thread with one arbiter: (id seen by the creator, id seen by a task on the arbiter);
+    // lives until `fin` is dropped / signalled
+    fn live_system(fin: mpsc::Receiver<()>) -> mpsc::Receiver<(usize, Option<usize>)> {
+        let (tx, rx) = mpsc::channel();
+        thread::spawn(move || {
+            let runner = System::new();
+            let creator = System::current().id();
+            let arb = Arbiter::new();
+            let (itx, irx) = mpsc::channel();
+            arb.spawn_fn(move || {
+                let _ = itx.send(System::current().id());
+            });
+            let _ = tx.send((creator, irx.recv_timeout(WATCHDOG).ok()));
+            let _ = fin.recv_timeout(Duration::from_secs(30));
+            arb.stop();
+            let _ = arb.join();
+            drop(runner);
+        });
+        rx
+    }
+    let (tx, rx) = mpsc::channel::<Result<(), String>>();
+    thread::spawn(move || {
+        let _l = ID_LOCK.read().unwrap_or_else(|e| e.into_inner());
+        for round in 0..rounds {
+            // A: created, later stopped; its `run()` returns
+            let (atx, arx) = mpsc::channel();
+            let (adone_tx, adone_rx) = mpsc::channel();
+            thread::spawn(move || {
+                let runner = System::new();
+                let _ = atx.send(System::current());
+                let _ = adone_tx.send(runner.run().is_ok());
+            });
+            let Ok(sys_a) = arx.recv_timeout(WATCHDOG) else {
+                let _ = tx.send(Err(format!("round {round}: System::new did not return")));
+                return;
+            };
+            let (bfin, bfin_rx) = mpsc::channel();
+            let Ok((b, b_arb)) = live_system(bfin_rx).recv_timeout(2 * WATCHDOG) else {
+                let _ = tx.send(Err(format!("round {round}: the second System did not come up")));
+                return;
+            };
+            sys_a.stop();
+            if adone_rx.recv_timeout(WATCHDOG) != Ok(true) {
+                let _ = tx.send(Err(format!("round {round}: run() of the first System did not return Ok after stop()")));
+                return;
+            }
+            let (cfin, cfin_rx) = mpsc::channel();
+            let Ok((c, c_arb)) = live_system(cfin_rx).recv_timeout(2 * WATCHDOG) else {
+                let _ = tx.send(Err(format!("round {round}: the third System did not come up")));
+                return;
+            };
+            drop((bfin, cfin));
+            let e = if b_arb != Some(b) || c_arb != Some(c) {
+                Some(format!("round {round}: tasks on the arbiters of systems {b} / {c} saw System::current().id() = {b_arb:?} / {c_arb:?}"))
+            } else if b == c {
+                Some(format!("round {round}: a System created after another one's run() had returned got id {c}, the id of a System that is still alive (its arbiter reports the same System::current().id())"))
+            } else if sys_a.id() == b || sys_a.id() == c {
+                Some(format!("round {round}: id {} of a System was handed out again", sys_a.id()))
+            } else {
+                None
+            };
+            if let Some(e) = e {
+                let _ = tx.send(Err(e));
+                return;
+            }
+        }
+        let _ = tx.send(Ok(()));
+    });
+    match rx.recv_timeout(Duration::from_secs(120)) {
+        Ok(Ok(())) => Ok(format!("syslive=distinct rounds={rounds}")),
+        Ok(Err(e)) => Err(e),
+        Err(_) => Err("hang".into()),
+    }
+}
+
 /// `blockon <variant> <pends> <value>`
 fn exec_blockon(variant: &str, pends: usize, value: i32) -> Result<String, String> {
     let v = variant.to_string();
@@ -2171,6 +2288,7 @@ enum LineRes {
     Ident,
     BlockOn(String, usize, i32),
     SysIds(usize, usize),
+    SysLive(usize),
 }
 
 fn feed(sc: &mut Scenario, ws: &[&str]) -> LineRes {
@@ -2324,8 +2442,11 @@ fn feed(sc: &mut Scenario, ws: &[&str]) -> LineRes {
         }
         (10, ["runner", m]) => {
             let block = match *m {
-                "plain" => false,
-                "block" => true,
+                "plain" => 0u8,
+                "block" => 1,
+                // driven by `block_on`, `System::stop()` first, the arbiters created after the controller
+                // has handled it
+                "stopped" => 2,
                 _ => return bad(),
             };
             // first line of the case; `Arbiter::new` targets only (the system arbiter goes with the runner)
@@ -2501,6 +2622,12 @@ fn feed(sc: &mut Scenario, ws: &[&str]) -> LineRes {
             sc.done = true;
             LineRes::Ident
         }
+        (10, ["syslive", r]) => {
+            match parse_nat(r) {
+                Some(r) if (1..=200).contains(&r) => LineRes::SysLive(r),
+                _ => bad(),
+            }
+        }
         (10, ["sysids", t, r]) => {
             let (Some(t), Some(r)) = (parse_nat(t), parse_nat(r)) else { return bad() };
             if !(2..=8).contains(&t) || !(1..=1000).contains(&r) {
@@ -2611,6 +2738,13 @@ fn run_case(lines: &[String]) -> CaseOut {
                 out.lines.push((line.clone(), o.verdict));
                 out.t3.extend(o.t3);
             }
+            LineRes::SysLive(r) => match exec_syslive(r) {
+                Ok(v) => out.lines.push((line.clone(), v)),
+                Err(e) => {
+                    out.t3.push(("C10".into(), format!("system ids: {e}")));
+                    out.lines.push((line.clone(), format!("syslive=bad rounds={r}")));
+                }
+            },
             LineRes::SysIds(t, r) => match exec_sysids(t, r) {
                 Ok(v) => out.lines.push((line.clone(), v)),
                 Err(e) => {
@@ -3321,7 +3455,7 @@ fn directed_c10(w: &mut dyn Write, rng: &mut Rng, n: &mut usize, thorough: bool)
         for l in lines {
             writeln!(w, "{l}").unwrap();
         }
-        if !lines.last().map(|l| l == "ident" || l.starts_with("sysids")).unwrap_or(false) {
+        if !lines.last().map(|l| l == "ident" || l.starts_with("sysids") || l.starts_with("syslive")).unwrap_or(false) {
             writeln!(w, "go j={}", rng.next() % 1_000_000).unwrap();
         }
     };
@@ -3329,6 +3463,12 @@ fn directed_c10(w: &mut dyn Write, rng: &mut Rng, n: &mut usize, thorough: bool)
     // (0) a task running ON an arbiter sends while its thread is held: to its own arbiter through
     // `Arbiter::current()` (`c0`) or a captured handle (`t0`), behind commands / a stop other threads
     // have already sent; to another arbiter; stopping its own arbiter
+    // (0000000) arbiters created AFTER `System::stop()` was handled (the runner inside `block_on`): the stop
+    // broadcast was over before they existed, nobody has stopped them — they accept and run commands;
+    // a System created after another one's `run()` returned does not get the id of a System still alive
+    case(w, &[s("runner stopped"), s("arb"), s("spawn 0 own fn"), s("spawn 0 h1 fut"), s("wait t1"), s("stop 0 own")], rng);
+    case(w, &[s("@rt=custom"), s("runner stopped"), s("arb"), s("arb"), s("spawn 1 h2 pend"), s("spawn 0 own gate"), s("wait t1"), s("spawn 0 c1 fn"), s("dropsys"), s("spawn 1 own fn"), s("wait t3"), s("open t1"), s("wait t2"), s("stop 0 h1"), s("stop 1 own")], rng);
+    case(w, &[format!("syslive {}", if thorough { 40 } else { 6 })], rng);
     // (000000) the System's runner is never run but DROPPED without a stop — idle all the time (`plain`: the
     // controller has never been polled) or after a `block_on` (`block`: the controller has registered the
     // arbiters): the arbiters nobody stopped go on accepting and running commands, in order, on their threads
@@ -3340,7 +3480,7 @@ fn directed_c10(w: &mut dyn Write, rng: &mut Rng, n: &mut usize, thorough: bool)
     case(w, &[s("runner block"), s("arb"), s("spawn 0 own pend"), s("spawn 0 h2 fn"), s("wait t1"), s("stop 0 own")], rng);
     if thorough {
         let alpha = ["spawn 0 own fn", "spawn 0 h1 pend", "spawn 0 h2 block", "stop 0 own"];
-        for mode in ["plain", "block"] {
+        for mode in ["plain", "block", "stopped"] {
             for len in 1..=3usize {
                 for code in 0..4usize.pow(len as u32) {
                     let seq: Vec<usize> = (0..len).map(|i| (code / 4usize.pow(i as u32)) % 4).collect();
@@ -3504,7 +3644,7 @@ fn gen_c10(a: &Args, w: &mut dyn Write) {
         // a sixth of the cases: the runner is never run but dropped somewhere along the way
         let dropped_runner = !hosted && rng.chance(1, 6);
         if dropped_runner {
-            writeln!(w, "runner {}", ["plain", "block", "block"][rng.below(3)]).unwrap();
+            writeln!(w, "runner {}", ["plain", "block", "block", "stopped"][rng.below(4)]).unwrap();
         }
         let mut dropsys_at = if dropped_runner && rng.chance(3, 4) { Some(rng.below(6)) } else { None };
         let with_sys = !dropped_runner && rng.chance(1, 3);
@@ -3686,6 +3826,7 @@ fn gen_c10(a: &Args, w: &mut dyn Write) {
     writeln!(w, "case bad2 c10\narb\nspawn 0 own fn\nident\narb early\nstop sys-pre 1").unwrap();
     writeln!(w, "case bad3 c10\nhost 0 kept\nhost 4 kept\nhost 1 gone\nhost 2 kept\nhost 1 dropped\nsysarb\nsysarb\narb\narb\narb\nident\nspawn 1 own gate\nspawn 1 own fn\nwait t1\nwait t0\nopen t1\nopen t0\nopen t0\nwait t1\nspawnn 1 own fn 1\nspawnn 1 own fn 301\nspawnn 1 own gate 5\nspawnn 1 h1 fn 3\nspawnn 0 own fut 300\nspawnn 0 own fut 100\nstop 0 own\nstop 1 own\ngo j=9\nstop 2 h2\ngo j=9").unwrap();
     writeln!(w, "case bad4 c10\narb\nhost 1 kept\nspawn 0 own fn\nsysarb\nstop 0 own\ngo j=1").unwrap();
+    writeln!(w, "case bad13 c10\nsyslive 0\nsyslive 201\nsyslive x\nrunner stoped\nrunner stopped\nsysarb\narb\nspawn 0 own fn\nwait t0\nstop 0 own\ngo j=12").unwrap();
     writeln!(w, "case bad11 c10\ndropsys\nrunner idle\nrunner block\nrunner plain\nhost 1 kept\nsysarb\ndropsys\narb\nident\nlate 0 sys\nspawn 0 own fn\ndropsys\ndropsys\nwait t0\nstop 0 own\ngo j=10").unwrap();
     writeln!(w, "case bad12 c10\narb\nrunner block\ndropsys\nstop 0 own\ngo j=11").unwrap();
     writeln!(w, "case bad10 c10\narb\nspawnn 0 own pendown 2\nspawn 0 own pendwn\nspawn 0 own pendown\nstop 0 own\ngo j=9").unwrap();
